@@ -165,6 +165,11 @@ def judge(rt, stages, row, inp, cyclic, forms, quickset, real=True, plain=None):
         log = o["log"]
         cc = collections.Counter(k for k, ev in log if ev == "c")
         top_c = cc.get(0, 0)
+        # documented: "If coll is empty, return init without calling f" (transduce, and into built on it);
+        # no listed transducer emits anything on completion of an empty input, so this is not observable
+        # in the elements and the property's "completion exactly once" is read as applying to non-empty inputs
+        if form in ("into", "transduce") and not inp and not cc:
+            return None
         if top_c != 1:
             if form == "sequence" and top_c > 1:
                 sig = "sequence:completes-on-every-step"
